@@ -260,12 +260,13 @@ class BaseDiscretizer(BaseEstimator, TransformerMixin):
 
         # for multiclass targets
         else:
-            # duplicating features
+            # duplicating features (missing columns are reported by _prepare_data)
             X = X.assign(
                 **{
                     casted_feature: X[feature]
                     for feature, feature_casting in self.features_casting.items()
                     for casted_feature in feature_casting
+                    if feature in X
                 }
             )
 
